@@ -120,21 +120,23 @@ def y2_siblings(ctx):
         rt = strip(fm.ret_expr())
     finally:
         fm._shallow = False
-    if rt[0] != 'aggr' or rt[1] != 'tuple':
-        raise AnchorLost('find_match no longer returns a tuple')
+    if rt[0] != 'aggr' or not (rt[1] == 'tuple' or (len(rt) > 3 and rt[3] and len(rt[3]) == len(rt[2]))):
+        raise AnchorLost('find_match returns neither a tuple nor a struct literal')
     pos = {}
     for n, x in enumerate(rt[2]):
         x = strip(x)
         if x[0] == 'var':
             pos[n] = x[2]
+            if rt[1] != 'tuple':
+                pos[rt[3][n]] = x[2]          # a small result struct: the component is addressed by its field name
     role = {'start_token_index': 'START', 'target_token_index': 'TARGET'}
 
     def norm(e):
         def f(n):
             if n[0] == 'var' and n[2] in role:
                 return ('var', 0, role[n[2]])
-            if n[0] == 'field' and n[2].lstrip('#').isdigit() and strip(n[1])[0] == 'call' and strip(n[1])[1].endswith('rule_tokinizer::find_match'):
-                nm = pos.get(int(n[2].lstrip('#')))
+            if n[0] == 'field' and strip(n[1])[0] == 'call' and strip(n[1])[1].endswith('rule_tokinizer::find_match'):
+                nm = pos.get(int(n[2].lstrip('#'))) if n[2].lstrip('#').isdigit() else pos.get(n[2])
                 if nm in role:
                     return ('var', 0, role[nm])
             return n
@@ -276,7 +278,7 @@ def y5_history_free(ctx):
     for fn_ in ('add_rule', 'add_dynamic_type_item', 'set_date_rule'):
         b = ctx.facts.body('smartcalc::SmartCalc::' + fn_)
         ctx.fn(b)
-        bodies = [b] + [c for c in ctx.facts.bodies.values() if c.kind == 'closure' and c.rec.get('parent') == b.path]
+        bodies = [b] + model.closures_of(ctx, b)
         calls = [(c, bid, t) for c in bodies for bid, t in c.calls(r"Tokinizer::<'a>::token_infos$|Tokinizer::token_infos$")]
         if not calls:
             ctx.finding('Y5', '%s/no-tokenisation' % fn_, '%s does not tokenise its patterns with Tokinizer::token_infos' % fn_, site=b.loc)
